@@ -13,7 +13,7 @@ pub fn judge(ctx: &Ctx, l: &mut Local, site: Site, date: NaiveDate, method: Meth
     for (i, school) in [AsrShadowRatio::Shafi, AsrShadowRatio::Hanafi].into_iter().enumerate() {
         let mut p = params_conv(method);
         p.asr_shadow_ratio = school;
-        let r = prayer_times_dt(&p, site.loc(), date, None);
+        let r = pt(&p, site.loc(), date, None);
         l.evals += 1;
         let case = || PtCase::new(&p, site, date);
         let k = (i + 1) as f64;
